@@ -33,6 +33,21 @@ def LineTaken(conn, buf0, rx0, rx1, result):
     return total == result + eol + conn._rxbuffer and eol not in result
 
 
+# ---- reconnection (bounded stand-in only): histories of communicate() calls on a device that refuses, drops and comes back
+def ReconnectRateOk(attempts, interval):
+    """connection attempts made on behalf of communicate() are at least one reconnect interval apart"""
+    return all(b - a >= interval - 1e-9 for a, b in zip(attempts, attempts[1:]))
+
+
+def CallbacksPerReconnect(cb_calls, n_reconnects, n_callbacks):
+    """every registered reconnect callback ran exactly once for each successful RE-connect (a connect after a connection was lost)"""
+    return len(cb_calls) == n_reconnects * n_callbacks and all(cb_calls.count(i) == n_reconnects for i in range(n_callbacks))
+
+
+def StateVisible(io):
+    return bool(io.is_connected) == (io._conn is not None)
+
+
 CONTRACTS = [
     dict(key='iface::AsynConn.recv', file=None, func=None, signature='self', serves=[], trusted=True, requires=[],
          ghost_modifies=['rx'],
@@ -66,6 +81,17 @@ CONTRACTS = [
          requires=[],
          ensures={'own_reply': 'result == expected_reply', 'waited': 'first_send_time.conn.sent[0][0] >= call_time + self.wait_before - 1e-9'},
          raises={'only_if_expected': 'expected_reply is None'}),
+    dict(key='IOBase.check_connection', vc=False, file='frappy/io.py', func='IOBase.check_connection', serves=['C16'], self_type='IOBase',
+         requires=[],
+         ensures={'rate': 'ReconnectRateOk(world.attempts, self.pollinterval)',
+                  'callbacks': 'CallbacksPerReconnect(world.cb_calls, world.reconnects, 2)',
+                  'state_visible': 'StateVisible(self)',
+                  'reply': 'result == expected_reply'},
+         raises={'rate': 'ReconnectRateOk(world.attempts, self.pollinterval)',
+                 'callbacks': 'CallbacksPerReconnect(world.cb_calls, world.reconnects, 2)',
+                 'state_visible': 'StateVisible(self)',
+                 'error_expected': 'expected_reply is None',
+                 'cls': 'issubclass(exc, CommunicationFailedError) or exc.__name__ in ("SilentError", "CommunicationSilentError")'}),
     dict(key='AsynConn.readline', vc=False, file='frappy/lib/asynconn.py', func='AsynConn.readline', serves=['C16'],
          self_type='AsynConn', requires=[],
          ensures={'line': 'LineTaken(self, old(self._rxbuffer), old(rx), rx, result)'},
